@@ -8,7 +8,7 @@ LEVEL = "model_checking"
 META = {
     "technique": "TLA+ two-copy (self-composition) model Redact.tla model-checked by TLC for non-interference; every enumerated pair replayed on RedactUserinfo / RedactUserinfoInURLError; recorded real pairs re-judged by TLC",
     "level_text": "Redact.tla holds two URL records that are equal except for their userinfo, the returned pointers (alias of the input or fresh) and an error object; TLC checks non-interference (equal results for any two non-nil userinfos), mask-only change, as-is return without userinfo, untouched inputs and that only a top-level *url.Error of a URL with userinfo changes, and only in its URL text. Every URL skeleton (scheme, opaque, host, port, path, raw path, query echoing the secret, fragment, ForceQuery, OmitHost) x every ordered pair of userinfo variants (name only, empty password, percent-escaped, mask-like, empty name, kilobyte-long) x error kind is emitted with the predicted results and replayed on the real functions: String() equality within the pair, userinfo = xxxxx:xxxxx, every other url.URL field ==, input fields / shared *Userinfo / String() unchanged, pointer identity without userinfo, Op/Err/URL of the error. Random URL pairs (also parsed ones, shared *Userinfo, odd field combinations) are recorded as field records and re-judged by RedactTrace.tla.",
-    "level_note": "RedactConc.tla makes 'the input is never modified' an obligation on every intermediate state of a call (two callers and a reader on one shared URL; the save/write-mask/print/restore design must be refuted: reader sees the mask, two calls make it permanent); a free-running -race phase runs several redacting goroutines and plain readers on one shared *url.URL. Exhaustive over the component-presence skeletons and userinfo variants listed, sampled beyond; one concrete representative per component token (three per userinfo token). A typed-nil *url.Error is outside the statement.",
+    "level_note": "RedactHist.tla: histories of calls between which the owner changes previously returned results; each result must depend on its argument only and no object may be handed out twice (a value-keyed memo must be refuted); replayed exhaustively to the bound, random histories trace-validated, and run concurrently. A *url.Userinfo is treated as immutable (results may share the mask's *Userinfo; only the User field is reassigned). RedactConc.tla makes 'the input is never modified' an obligation on every intermediate state of a call (two callers and a reader on one shared URL; the save/write-mask/print/restore design must be refuted: reader sees the mask, two calls make it permanent); a free-running -race phase runs several redacting goroutines and plain readers on one shared *url.URL. Exhaustive over the component-presence skeletons and userinfo variants listed, sampled beyond; one concrete representative per component token (three per userinfo token). A typed-nil *url.Error is outside the statement.",
 }
 
 INV = ["TypeOK", "NonInterference", "MaskOnly", "AsIs", "Fresh"]
@@ -22,7 +22,9 @@ def run(ctx):
                 "emitted with the predicted results and replayed as a pair of RedactUserinfo calls plus one "
                 "RedactUserinfoInURLError call, every observable of the statement compared; T: seeded random pairs recorded "
                 "from the real functions as url.URL field records and re-judged by RedactTrace; S: free-running -race phase, "
-                "several goroutines redact one shared *url.URL while readers read it, judged after wg.Wait() and by RedactConcTrace. "
+                "several goroutines redact one shared *url.URL while readers read it, judged after wg.Wait() and by RedactConcTrace; "
+                "H: every history of calls on equal/different URLs with the owner mutating returned results (RedactHist.tla) replayed, "
+                "random histories re-judged by RedactHistTrace, the same shape run by concurrent goroutines. "
                 "distinct_nontrivial = distinct pairs with a non-nil userinfo")
     ctx.assumptions += ["url.URL values are built field by field (also combinations url.Parse never produces); strings are ASCII-escaped for TLC",
                         "the error passed is nil, a non-nil *url.Error, an error wrapping one, or another error"]
@@ -83,6 +85,44 @@ def run(ctx):
 
     bg.go(conc_job)
 
+    # Histories (RedactHist.tla): redact -> the owner mutates the RESULT -> redact an equal URL again.
+    hd = ctx.scratch / "hist"
+    hd.mkdir()
+    for f in ("RedactHist.tla", "RedactHistGen.tla", "RedactHistTrace.tla", "RedactHistTrace.cfg"):
+        shutil.copy(d / f, hd / f)
+
+    def hist_job():
+        consts = {"Inputs": "<- ModelInputs", "MaxSteps": 5 if q else 6}
+        invs = ["DependsOnArgOnly", "FreshAcrossCalls", "ResultsAreNotInputs", "InputsNeverWritten"]
+        write_cfg(hd / "HistMC_run.cfg", "Spec", dict(consts, Impl='"clone"'), invariants=invs, properties=["CallsWriteNothing"])
+        tlc_locked(ctx, hd, "RedactHist", "HistMC_run.cfg", workers=2, label="redact-hist-mc")
+        for inv in ("DependsOnArgOnly", "FreshAcrossCalls"):
+            cfg = "HistMemo_%s.cfg" % inv
+            write_cfg(hd / cfg, "Spec", dict(consts, Impl='"memo"'), invariants=[inv])
+            r = ctx.tlc(hd, "RedactHist", cfg, workers=2, expect_ok=False, count=False,
+                        label="redact-hist-memo-must-fail-" + inv)
+            if r.violated != inv:
+                raise CheckerError("RedactHist.tla does not refute the value-keyed memo (%s):\n%s"
+                                   % (inv, "\n".join(r.out.splitlines()[-20:])))
+        write_cfg(hd / "HistGen_run.cfg", "GSpec", dict(consts, Impl='"clone"', MaxSteps=4 if q else 5), invariants=["Emit"] + invs)
+        tlc_locked(ctx, hd, "RedactHistGen", "HistGen_run.cfg", workers=4, label="redact-hist-gen")
+        replay_job(["c16", "replay-hist", hd / "hist_vectors.ndjson"], "hist")
+        out = ctx.scratch / "histrec.res"
+        ctx.vh(["c16", "record-hist", hd / "redact_hist_trace.ndjson", out, 300 if q else 3000], timeout=1800)
+        s = ctx.collect(out)
+        validate_trace_locked(ctx, hd, "RedactHistTrace", "RedactHistTrace.cfg", "redact_hist_trace.ndjson", "redaction histories")
+        with _lock:
+            sums.append({"evaluations": s["evaluations"], "traced_events": s["events"]})
+
+    def replay_job(args, tag):
+        out = ctx.scratch / (tag + ".res")
+        ctx.vh(args + [out], timeout=1800)
+        s = ctx.collect(out)
+        with _lock:
+            sums.append(s)
+
+    bg.go(hist_job)
+
     def replay_part(part, tag):
         out = ctx.scratch / (tag + ".res")
         ctx.vh(["c16", "replay", part, out], timeout=1800)
@@ -120,8 +160,9 @@ def run(ctx):
     for rep in golibs:
         frames = [ln.strip() for ln in rep.splitlines() if "/netutil/urlutil/" in ln and ".go:" in ln]
         where = " | ".join(sorted(set(f.split("/")[-1].split(" ")[0] for f in frames))[:4])
-        ctx.mismatch("DATA RACE on the input URL of RedactUserinfo / RedactUserinfoInURLError: " + where,
-                     "the Go race detector reported a write to the caller's URL while another goroutine used it", rep[:6000])
+        ctx.mismatch("DATA RACE in RedactUserinfo / RedactUserinfoInURLError: " + where,
+                     "the Go race detector reported a data race with a urlutil frame while goroutines redacted / read URLs "
+                     "(a write to the caller's URL or to state shared between calls)", rep[:6000])
     ctx.extra["race_reports_with_golibs_frames"] = len(golibs)
 
 
